@@ -7,6 +7,7 @@ revert / flush / stash), `Model/Mutate.lean` (flush = ApplyMutations).  Spec: `S
 import DoltVerif.Model.MutableMap
 import DoltVerif.Lemmas.Mutate
 import DoltVerif.Lemmas.Search
+import DoltVerif.Lemmas.TreeWF
 namespace DoltVerif.C11
 open DoltVerif.Prolly DoltVerif.SortedDict
 
@@ -148,6 +149,72 @@ theorem get_refines_leaf {cmp : κ → κ → Ordering} (hc : TotalPreorder cmp)
     (⟨0, leaf⟩ : Tree κ ν).get cmp k = SortedDict.lookup cmp leaf k := by
   have h : (⟨0, leaf⟩ : Tree κ ν).get cmp k = leafGet cmp k leaf := rfl
   rw [h]; exact leafGet_refines hc leaf hs k
+
+/-- well-formed tree: every stored parent item describes its child (non-empty child, stored last
+key, stored subtree count) and the content is strictly sorted.  Uniform depth is by construction. -/
+structure WF [Inhabited κ] (cmp : κ → κ → Ordering) (t : Tree κ ν) : Prop where
+  node : WFNode t.height t.root
+  sorted : Sorted cmp t.flatten
+
+/-- **`Get`/`Has` refine dictionary lookup, for every tree height**: for every total-preorder
+comparator, every well-formed tree and every probe (present, absent between present keys, below
+the first, above the last), the per-level binary search over the stored last keys followed by
+the leaf search returns exactly the dictionary's entry. -/
+theorem get_refines [Inhabited κ] {cmp : κ → κ → Ordering} (hc : TotalPreorder cmp) (t : Tree κ ν)
+    (h : WF cmp t) (k : κ) : t.get cmp k = SortedDict.lookup cmp t.flatten k :=
+  Tree.get_refines hc t h.node h.sorted k
+
+/-- number of keys strictly below `k` in the dictionary -/
+def rank (cmp : κ → κ → Ordering) (kvs : List (κ × ν)) (k : κ) : Nat :=
+  (kvs.takeWhile (fun kv => cmp k kv.1 == .gt)).length
+
+/-- **`GetOrdinalForKey` refines the dictionary rank, for every tree height**: walking the stored
+subtree counts of the preceding siblings at every level (`getOrdinalOfCursor`) gives the number of
+keys strictly below the probe — also for probes above the last key (= `Count`). -/
+theorem ordinal_refines [Inhabited κ] {cmp : κ → κ → Ordering} (hc : TotalPreorder cmp) (t : Tree κ ν)
+    (h : WF cmp t) (hne : t.height = 0 ∨ t.root ≠ []) (k : κ) :
+    t.ordinalForKey cmp k = some (rank cmp t.flatten k) := by
+  rw [Tree.ordinalForKey_eq_ordAt]
+  exact ordAt_refines hc k t.height t.root h.node h.sorted hne
+
+/-- **`GetKeyRangeCardinality(start, stop)` refines the dictionary**: rank of `stop` minus rank of
+`start`, 0 for an inverted range. -/
+theorem cardinality_refines [Inhabited κ] {cmp : κ → κ → Ordering} (hc : TotalPreorder cmp) (t : Tree κ ν)
+    (h : WF cmp t) (hne : t.height = 0 ∨ t.root ≠ []) (a b : κ) :
+    t.keyRangeCardinality cmp (some a) (some b)
+      = some (rank cmp t.flatten b - rank cmp t.flatten a) := by
+  have ha := ordinal_refines hc t h hne a
+  have hb := ordinal_refines hc t h hne b
+  unfold Tree.ordinalForKey Tree.seekOrdinal at ha hb
+  unfold Tree.keyRangeCardinality Tree.keyRangePaths Tree.atKeyPath
+  cases hpa : seekPath (searchForKey cmp a) t.height t.root with
+  | none => rw [hpa] at ha; cases ha
+  | some pa =>
+    cases hpb : seekPath (searchForKey cmp b) t.height t.root with
+    | none => rw [hpb] at hb; cases hb
+    | some pb =>
+      rw [hpa] at ha; rw [hpb] at hb
+      simp only at ha hb
+      simp only [bind, Option.bind, pure, hpa, hpb, ha, hb, Option.some.injEq]
+      by_cases hgt : rank cmp t.flatten a > rank cmp t.flatten b
+      · simp only [hgt, if_true]; omega
+      · simp only [hgt, if_false]
+
+/-- non-vacuity: a two-level tree over numbers -/
+def exTree : Tree Nat String :=
+  ⟨1, [mkInner 3 2 [((1 : Nat), "a"), (3, "b")], mkInner 9 1 [((9 : Nat), "c")]]⟩
+
+example : WF compare exTree where
+  node := by
+    intro it hit
+    rcases List.mem_cons.mp hit with h | hit
+    · subst h; exact ⟨List.cons_ne_nil _ _, rfl, rfl, trivial⟩
+    · rcases List.mem_cons.mp hit with h | hit
+      · subst h; exact ⟨List.cons_ne_nil _ _, rfl, rfl, trivial⟩
+      · cases hit
+  sorted := by
+    show List.Pairwise _ [((1 : Nat), "a"), (3, "b"), (9, "c")]
+    decide
 
 /-- **`GetOrdinalForKey` on a single-node map counts the keys below the probe** -/
 theorem ordinal_refines_leaf {cmp : κ → κ → Ordering} (hc : TotalPreorder cmp) (leaf : List (κ × ν))
